@@ -140,7 +140,9 @@ fn finalizer(ctx: &sched::Ctx, q: &dyn RingApi, evs: &Mutex<Vec<Ev>>, ltid: usiz
     ctx.note(format!("obs len {}", accepted));
 }
 
-fn run_one(kind: &str, sub: &str, n: usize, seed: u64, origin: u32, replay: Option<Vec<u8>>, pct: bool) -> RunOut {
+fn run_one(kind: &str, sub: &str, n: usize, seed: u64, origin: u32, replay: Option<Vec<u8>>, pct: bool) -> RunOut { run_one_m(kind, sub, n, seed, origin, replay, pct, false) }
+/// `m32`: the trace is replayed on the u32 model `Ring32`, whose step counts do not depend on the origin
+fn run_one_m(kind: &str, sub: &str, n: usize, seed: u64, origin: u32, replay: Option<Vec<u8>>, pct: bool, m32: bool) -> RunOut {
     let q = make(kind, n);
     if origin != 0 { q.rebase(origin); }
     let mut rng = Rng::new(seed ^ 0xA5A5_0000);
@@ -159,7 +161,7 @@ fn run_one(kind: &str, sub: &str, n: usize, seed: u64, origin: u32, replay: Opti
                 let v = (p as u32 + 1) * 1000 + i as u32;
                 // index-based publication re-guesses the lap from the absolute counters: its *step count* (not its result)
                 // depends on the origin, so the step-level comparison with the origin-free model is done at origin 0 only
-                if kind == "atomic" && origin == 0 && rng.chance(1, 4) { Op::RsvPub(v) } else { Op::Send(v) }
+                if kind == "atomic" && (origin == 0 || m32) && rng.chance(1, 4) { Op::RsvPub(v) } else { Op::Send(v) }
             }).collect();
             let (q, evs, done) = (q.clone(), evs.clone(), done.clone());
             bodies.push(Box::new(move |ctx| {
@@ -398,8 +400,9 @@ fn main() {
         let origin = origins[(i as usize / ns.len()) % origins.len()];
         let origin = origin - (origin % n as u32);
         let pct = a.num("pct", 0) == 1 || (a.num("pct", 0) == 2 && i % 2 == 1);
-        let r = run_one(&kind, &sub, n, seed, origin, single.clone(), pct);
-        let model = if kind == "atomic" { "ring" } else { "lockring" };
+        let m32 = kind == "atomic" && a.num("model32", 0) == 1;
+        let r = run_one_m(&kind, &sub, n, seed, origin, single.clone(), pct, m32);
+        let model = if m32 { "ring32" } else if kind == "atomic" { "ring" } else { "lockring" };
         let cfg = format!("cfg model={model} N={n} seed={seed} run={i} origin={origin} sub={sub}");
         // the finalizer's `obs abs` line is completed here with what it drained
         let mut trace = r.outcome.trace.clone();
@@ -412,12 +415,12 @@ fn main() {
         let nontrivial = trace.iter().any(|l| l.contains(" am.p.recede ") || l.contains(" am.c.recede ") || l.contains(" sync.spin ") || l.starts_with("ret") && (l.ends_with(" full") || l.ends_with(" empty")));
         let verdict = format!("{:?}", r.outcome.verdict);
         rep.add_run(&trace, nontrivial, &r.cfgkey, &verdict);
-        if origin == 0 || sub == "mixed" { out.write_run(&cfg, &trace); }
+        if origin == 0 || sub == "mixed" || m32 { out.write_run(&cfg, &trace); }
         for (k, d) in viol {
             let name = format!("{pid}-{kind}-{sub}-seed{seed}-{k}");
             let header = vec![
                 format!("# replay: vh ring kind={kind} sub={sub} n={n} origins={origin} seed={seed0} runs=... (run {i}); or choices below"),
-                format!("cmd ring kind={kind} sub={sub} n={n} origins={origin} runs=1 seedx={seed} choices={}", choices_str(&r.outcome.choices)),
+                format!("cmd ring kind={kind} sub={sub} n={n} origins={origin}{} runs=1 seedx={seed} choices={}", if m32 { " model32=1" } else { "" }, choices_str(&r.outcome.choices)),
                 format!("violation {k}: {d}"),
                 cfg.clone(),
             ];
